@@ -53,6 +53,7 @@ def required(tier):
                                  'open-to-from-previous-year', 'open-from-to-next-year',
                                  'open-to-from-next-year', 'open-from-to-previous-year',
                                  'dst-change-day-same-zone')]
+    cl += ['file:dos-eof-marker-in-the-middle']
     cl += ['airport:patch-file', 'path:convert_oag_data']
     cl += [f'skip:{k}' for k in ('service', 'stops', 'non-operating', 'equipment',
                                  'unknown-airport', 'distance')]
@@ -86,10 +87,18 @@ def one_batch(rng, hdir: Path, w: dict, rec, k, nrows, case0):
     from vlib.storeops import Mismatch
 
     year = rng.choice([2019, 2021, 2024])
-    rows = [og.gen_row(rng, w, year, i + 2) for i in range(nrows)]
+    # a yearly file may be several DOS-format extracts appended to each other: the end-of-file
+    # marker record (a lone 0x1A) of the first extract then sits in the MIDDLE of the file
+    eof_at = rng.randrange(1, nrows - 1) if nrows >= 4 and rng.random() < 0.35 else None
+    rows = [og.gen_row(rng, w, year, i + 2 + (1 if eof_at is not None and i >= eof_at else 0))
+            for i in range(nrows)]
     csvp = hdir / f'oag{k}.csv'
     dbp = hdir / f'oag{k}.sqlite'
-    og.write_csv(csvp, rows)
+    if eof_at is None:
+        og.write_csv(csvp, rows)
+    else:
+        og.write_csv(csvp, rows[:eof_at] + [{'carrier': '\x1a'}] + rows[eof_at:])
+        rec.cls('file:dos-eof-marker-in-the-middle')
     add_result = {}
     errors = {}
     with OAGDatabase(str(dbp), year) as db:
